@@ -196,6 +196,12 @@ def run_project(arg):
                                 stderr=subprocess.STDOUT, stdin=subprocess.DEVNULL, timeout=case.get("timeout", 600))
             res["weak_rc"] = p2.returncode
             res["weak_new_dirs"] = sorted(os.path.relpath(x, d) for x in glob.glob(os.path.join(d, "dev", "*", "*", "[2-9]")))
+            # a weak variable does not enter the variant id: the package step is not run again (its dump keeps the first value)
+            try:
+                again = parse_environ(open(os.path.join(d, "dev", "dist", "root", "1", "workspace", ".dump.env"), "rb").read())
+                res["weak_seen_after"] = again.get("DW")
+            except OSError:
+                res["weak_seen_after"] = None
     except subprocess.TimeoutExpired:
         res["timeout"] = True
     except Exception as e:  # noqa
